@@ -26,6 +26,8 @@ What is proved, for every list length `n`, every pairwise function, every job co
   `MinHash.max_containment(other, downsample=True)` was not symmetric for sketches of different
   `scaled` until /repo commit 0bf3075 (finding C16.1 of this check, see harness/streams/compare.py:
   the oracle tests the symmetry of every pairwise table), so the hypothesis is not pedantry.
+* `allpairs_perm_equivariant`, `parallel_perm_equivariant`, `allpairs_raises_iff`: the same for `compare_all_pairs` /
+  `compare_parallel` themselves, for ALL `n_jobs` and chunkings (nothing about the parallel path is `_partial`).
 * `perm_equivariant_containment`: no symmetry needed for the containment matrix.
 -/
 import SmVerif.Lemmas.CompareOnce
@@ -271,6 +273,35 @@ theorem perm_equivariant_counterexample :
     (upperSpec 2 (fun i j => cexF (cexσ i) (cexσ j)) 1).get? 0 1 ≠ (upperSpec 2 cexF 1).get? (cexσ 0) (cexσ 1) := by
   decide
 
+/-- `compare_all_pairs` (hence `sourmash compare`, with or without `-p N`) is permutation-equivariant for EVERY
+    `n_jobs ∈ {None, 1, 2, …}` and every chunking: permuting the signature list by an injective `σ` permutes rows and
+    columns of the returned matrix.  Hypotheses: the pairwise function is symmetric (necessary, see
+    `perm_equivariant_counterexample`) and total on the list.  The only assumption about `multiprocessing` is the one
+    built into the model's `imap`: `Pool.imap` yields its chunks in SUBMISSION ORDER and re-raises a worker's exception
+    when its chunk is reached; nothing is assumed about which worker runs which chunk, or when. -/
+theorem allpairs_perm_equivariant (n : Nat) (hn : 0 < n) (jobs : Option Nat) (hj : jobs ≠ some 0)
+    (f : Nat → Nat → α) (hsym : ∀ i j, i < n → j < n → f i j = f j i) (σ : Nat → Nat)
+    (hσ : ∀ a, a < n → σ a < n) (inj : ∀ a b, a < n → b < n → σ a = σ b → a = b) (one zero : α) :
+    ∃ M M', compareAllPairs n jobs (fun i j => .ok (f i j)) one zero = .ok M ∧
+      compareAllPairs n jobs (fun i j => .ok (f (σ i) (σ j))) one zero = .ok M' ∧
+      ∀ a b, a < n → b < n → M'.get? a b = M.get? (σ a) (σ b) := by
+  refine ⟨upperSpec n f one, upperSpec n (fun i j => f (σ i) (σ j)) one, ?_, ?_, ?_⟩
+  · rw [allpairs_eq_serial n hn jobs hj]; exact compareSerial_ok n _ f one (fun _ _ _ _ => rfl)
+  · rw [allpairs_eq_serial n hn jobs hj]; exact compareSerial_ok n _ _ one (fun _ _ _ _ => rfl)
+  · intro a b ha hb; exact upperSpec_perm f one σ hσ inj hsym ha hb
+
+/-- the same for `compare_parallel` called directly with any positive number of processes -/
+theorem parallel_perm_equivariant (n jobs : Nat) (hn : 0 < n) (hj : 0 < jobs)
+    (f : Nat → Nat → α) (hsym : ∀ i j, i < n → j < n → f i j = f j i) (σ : Nat → Nat)
+    (hσ : ∀ a, a < n → σ a < n) (inj : ∀ a b, a < n → b < n → σ a = σ b → a = b) (one zero : α) :
+    ∃ M M', compareParallel n jobs (fun i j => .ok (f i j)) one zero = .ok M ∧
+      compareParallel n jobs (fun i j => .ok (f (σ i) (σ j))) one zero = .ok M' ∧
+      ∀ a b, a < n → b < n → M'.get? a b = M.get? (σ a) (σ b) := by
+  refine ⟨upperSpec n f one, upperSpec n (fun i j => f (σ i) (σ j)) one, ?_, ?_, ?_⟩
+  · exact compareParallel_ok n jobs hn hj _ f one zero (fun _ _ _ _ => rfl)
+  · exact compareParallel_ok n jobs hn hj _ _ one zero (fun _ _ _ _ => rfl)
+  · intro a b ha hb; exact upperSpec_perm f one σ hσ inj hsym ha hb
+
 theorem perm_equivariant_containment (n : Nat) (f : Nat → Nat → α) (one : α) (σ : Nat → Nat)
     (hσ : ∀ a, a < n → σ a < n) (inj : ∀ a b, a < n → b < n → σ a = σ b → a = b)
     (a b : Nat) (ha : a < n) (hb : b < n) :
@@ -304,6 +335,14 @@ theorem serial_raises_iff_some_pair_raises (n : Nat) (cell : Nat → Nat → Exc
       obtain ⟨v, hv⟩ := mapM_ok_imp _ _ _ hm (i, j) (mem_pairsUpper.mpr ⟨h1, h2⟩)
       simp only [he] at hv
       cases hv
+
+/-- … and when some pairwise call raises, every path raises (the permuted list may raise a different one of the
+    exceptions, the first in ITS loop order) -/
+theorem allpairs_raises_iff (n : Nat) (hn : 0 < n) (jobs : Option Nat) (hj : jobs ≠ some 0)
+    (cell : Nat → Nat → Except String α) (one zero : α) :
+    (∃ e, compareAllPairs n jobs cell one zero = .error e) ↔ ∃ i j, i < j ∧ j < n ∧ ∃ e, cell i j = .error e := by
+  rw [allpairs_eq_serial n hn jobs hj]
+  exact serial_raises_iff_some_pair_raises n cell one
 
 /-! ### non-vacuity: concrete runs of the model -/
 
